@@ -1,24 +1,30 @@
 /-
-Model of the configuration-update protocol of the lunar engine (core Lean only):
+Model of the configuration-update protocol of the lunar engine (core Lean only), AFTER the repairs
+F08a–F08e (see fixes/F08*.patch):
 
 * `config/gateway_file_system.go`   — `FileSystemOperation` (Backup / Restore / CleanAll / Save*,
-  `storeFileOnDisk`, `GetDiff`), transcribed literally, including the accidents:
-  `Restore` computes `currentSnapshot.GetDiff(backup.md5)` (receiver and argument swapped), so it
-  iterates the CURRENT snapshot and writes the CURRENT contents back; `storeFileOnDisk` removes the
-  file before anything that can fail; `SaveMetricsConfig` writes `GetMetricsConfigFilePath()` (the
-  built-in default file when the user file does not exist) while the backup covers
-  `GetUserMetricsConfigFilePath()`.
-* `routing/handling_data_manager.go` — `handleConfiguration`, `handleApplyFlows`, `reloadFlows`,
-  `initializeStreams` (`rd.stream = stream` BEFORE `stream.Initialize()`), the method check that
-  answers 405 but does not `return`.
+  `storeFileOnDisk`).  `Restore` iterates `backup.GetDiff(currentSnapshot.md5)` — every backed-up
+  file whose content changed or which disappeared gets its BACKED-UP content back — and then removes
+  the files that were not there when the backup was taken (F08a).  `storeFileOnDisk` removes the
+  file before anything that can fail.  `SaveMetricsConfig` writes the user metrics path, the one
+  backup and clean-up cover (F08d).
+* `routing/handling_data_manager.go` — `handleConfiguration`, `handleApplyFlows` (now with the same
+  backup / restore / reload-again path as `/configuration`, F08b; both `return` after answering
+  405 to a non-PUT request, F08e), `reloadFlows`, `initializeStreams` (`rd.stream = stream` only
+  AFTER `stream.Initialize()` succeeded, F08c; the `verif` yield point sits just before the
+  assignment: a transaction arriving there is served by the engine that is still published).
 * `streams/config/flows_payload.utils.go` — `ParsePayload` (base64), `SavePayloadContentToDisk`
   (flows, quotas, path params, gateway config, metrics — in that order), `CleanUpGatewayDirectories`.
 
-The file system is a finite map path → bytes (association list, first binding wins; well-formed
-disks have no duplicate keys).  MD5 is modelled as the identity (an injective function).  YAML
-decoding / flow validation / metrics loading are predicates of the environment (`Env`), as are the
-injected faults (`plan`: which primitive step fails) and the order in which Go iterates its maps
-(the order of the item list, `cleanOrder`).
+Still open (F08f): a reload that fails AFTER the switch (HAProxy update, metrics reload) is
+answered 422 and rolled back, but between the switch and the end of the rollback reload traffic
+is served by the rejected configuration.
+
+The file system is a finite map path → bytes (association list, first binding wins).  MD5 is
+modelled as the identity (an injective function).  YAML decoding / flow validation / metrics
+loading are predicates of the environment (`Env`), as are the injected faults (`plan`: which
+primitive step fails) and the orders in which Go iterates its maps (order of the item list,
+`cleanOrder`, `restoreOrder`).
 -/
 namespace LunarVerif.C08
 
@@ -62,8 +68,8 @@ def Path.covered : Path → Bool
   | .defaultMetrics => false
   | _ => true
 
-/-- The stream engine pointer `rd.stream`: an engine initialised from a disk snapshot, or a
-    published engine whose `Initialize()` has not (successfully) run: empty filter tree. -/
+/-- The stream engine pointer `rd.stream`: an engine initialised from a disk snapshot
+    (`uninit`: no engine yet — only before the first load). -/
 inductive Engine
   | ready (snap : Disk)
   | uninit
@@ -89,11 +95,12 @@ inductive Step
 deriving DecidableEq, Repr
 
 structure Env where
-  plan : Step → Bool                 -- injected faults
-  validates : Disk → Bool            -- verdict of the dry run on a disk
-  metricsOk : Disk → Bool            -- the effective metrics file loads
-  hasEndpoints : Disk → Bool         -- the engine asks HAProxy to manage at least one endpoint
-  cleanOrder : List Path             -- order in which `CleanAll` ranges over `fs.files`
+  plan : Step → Bool                    -- injected faults
+  validates : Disk → Bool               -- verdict of the dry run on a disk
+  metricsOk : Disk → Bool               -- the effective metrics file loads
+  hasEndpoints : Disk → Bool            -- the engine asks HAProxy to manage at least one endpoint
+  cleanOrder : List Path                -- order in which `CleanAll` ranges over `fs.files`
+  restoreOrder : List Path → List Path  -- order in which `Restore()` ranges over the backup's diff
 
 structure Item where
   path : Path                  -- `userMetrics` designates the `metrics` field of the payload
@@ -113,10 +120,10 @@ structure Req where
   ep : Endpoint
   methodPut : Bool
   body : Body
-  gate : Bool      -- a transaction arrives between `rd.stream = stream` and `Initialize()`
+  gate : Bool      -- a transaction arrives at the yield point just before `rd.stream = stream`
 deriving Repr
 
-inductive Phase | decode | nodata | backup | parse | cleanup | save | reload | ok
+inductive Phase | method | decode | nodata | backup | parse | cleanup | save | reload | ok
 deriving DecidableEq, Repr
 
 structure State where
@@ -129,7 +136,7 @@ structure Result where
   phase : Phase
   disk : Disk
   engine : Engine
-  mid : List Engine     -- engine seen by the transactions arriving at the publish points
+  mid : List Engine     -- engine serving the transactions that arrive at the switch points
 deriving Repr
 
 /-- `ParsePayload`: every item must be valid base64. -/
@@ -140,12 +147,6 @@ def parse : List Item → Option (List (Path × Bytes))
     | some c, some ps => some ((i.path, c) :: ps)
     | _, _ => none
 
-/-- Where a payload item is written. `SaveMetricsConfig` → `GetMetricsConfigFilePath()`. -/
-def saveTarget (d : Disk) (p : Path) : Path :=
-  if p = .userMetrics then
-    (if (d.get .userMetrics).isSome then .userMetrics else .defaultMetrics)
-  else p
-
 /-- `storeFileOnDisk`: the file is removed first; a failure leaves it removed. -/
 def store (fault : Bool) (d : Disk) (p : Path) (c : Bytes) : Disk × Bool :=
   if fault then (d.remove p, false) else (d.write p c, true)
@@ -154,68 +155,79 @@ def store (fault : Bool) (d : Disk) (p : Path) (c : Bytes) : Disk × Bool :=
 def saveAll (env : Env) : Disk → List (Path × Bytes) → Disk × Bool
   | d, [] => (d, true)
   | d, (p, c) :: rest =>
-    let r := store (env.plan (.save p)) d (saveTarget d p) c
+    let r := store (env.plan (.save p)) d p c
     if r.2 then saveAll env r.1 rest else (r.1, false)
 
 /-- `createFileSystemBackUp` (content; the md5 table is the same data). -/
 def snapshot (d : Disk) : Disk := d.filter (fun e => e.1.covered)
 
-/-- `self.GetDiff(other.dataMD5)`: entries of SELF whose checksum differs in `other`, with SELF's content. -/
-def getDiff (self other : Disk) : Disk :=
-  self.filter (fun e => decide (other.get e.1 ≠ some e.2))
-
-/-- The loop of `Restore()`. -/
-def storeAll (env : Env) : Disk → List (Path × Bytes) → Disk × Bool
+/-- First loop of `Restore()`: for every backed-up path whose current content differs (or which is
+    gone), store the backed-up content; stops at the first failure. -/
+def storeBackAll (env : Env) (backup : Disk) : Disk → List Path → Disk × Bool
   | d, [] => (d, true)
-  | d, (p, c) :: rest =>
-    let r := store (env.plan (.restoreStore p)) d p c
-    if r.2 then storeAll env r.1 rest else (r.1, false)
+  | d, p :: rest =>
+    match backup.get p with
+    | none => storeBackAll env backup d rest
+    | some c =>
+      if d.get p = some c then storeBackAll env backup d rest
+      else
+        let r := store (env.plan (.restoreStore p)) d p c
+        if r.2 then storeBackAll env backup r.1 rest else (r.1, false)
 
-/-- `Restore()` as written: `fileSystemSnapshot.GetDiff(fs.backUp.dataMD5)`. -/
+/-- `Restore()`: write back what changed, then remove what was added (second loop, not reached
+    when a store fails). -/
 def restore (env : Env) (backup d : Disk) : Disk × Bool :=
   if env.plan .restoreRead then (d, false)
-  else storeAll env d (getDiff (snapshot d) backup)
+  else
+    let r := storeBackAll env backup d (env.restoreOrder backup.keys)
+    if r.2 then
+      (r.1.filter (fun e => !e.1.covered || (backup.get e.1).isSome), true)
+    else r
 
 structure Reload where
   engine : Engine
   mid : List Engine
   ok : Bool
 
-/-- `reloadFlows` = dry run; `initializeStreams` (publish, Initialize, HAProxy); metrics reload. -/
+/-- `reloadFlows` = dry run; `initializeStreams` (Initialize, switch, HAProxy); metrics reload. -/
 def reload (env : Env) (r : Nat) (gate : Bool) (d : Disk) (e : Engine) (mid : List Engine) : Reload :=
   if env.plan (.validate r) || !env.validates d then ⟨e, mid, false⟩
+  else if env.plan (.initialize r) then ⟨e, mid, false⟩      -- the previous engine keeps serving
   else
-    -- rd.stream = stream   (published, not initialised)
-    let mid := if gate then mid ++ [Engine.uninit] else mid
-    if env.plan (.initialize r) then ⟨.uninit, mid, false⟩
-    else if env.plan (.haproxy r) && env.hasEndpoints d then ⟨.ready d, mid, false⟩
+    -- yield point: the new engine is built, the previous one still published
+    let mid := if gate then mid ++ [e] else mid
+    -- rd.stream = stream
+    if env.plan (.haproxy r) && env.hasEndpoints d then ⟨.ready d, mid, false⟩
     else if env.plan (.metrics r) || !env.metricsOk d then ⟨.ready d, mid, false⟩
     else ⟨.ready d, mid, true⟩
 
-/-- First `WriteHeader` wins: a non-PUT request is answered 405 and processed all the same. -/
-def statusOf (req : Req) (s : Nat) : Nat := if req.methodPut then s else 405
+/-- Everything after `ParsePayload`, given the tree `d1` the saves start from (`st.disk` for
+    `/configuration`, the cleaned tree for `/apply_flows`). -/
+def saveAndReload (env : Env) (st : State) (req : Req) (backup d1 : Disk)
+    (parsed : List (Path × Bytes)) : Result :=
+  let s := saveAll env d1 parsed
+  if !s.2 then
+    ⟨500, .save, (restore env backup s.1).1, st.engine, []⟩
+  else
+    let r1 := reload env 1 req.gate s.1 st.engine []
+    if r1.ok then ⟨200, .ok, s.1, r1.engine, r1.mid⟩
+    else
+      let d2 := (restore env backup s.1).1
+      let r2 := reload env 2 req.gate d2 r1.engine r1.mid
+      ⟨422, .reload, d2, r2.engine, r2.mid⟩
 
 def handleConfiguration (env : Env) (st : State) (req : Req) : Result :=
+  if !req.methodPut then ⟨405, .method, st.disk, st.engine, []⟩
+  else
   match req.body with
-  | .badJson => ⟨statusOf req 400, .decode, st.disk, st.engine, []⟩
-  | .null => ⟨statusOf req 400, .nodata, st.disk, st.engine, []⟩
+  | .badJson => ⟨400, .decode, st.disk, st.engine, []⟩
+  | .null => ⟨400, .nodata, st.disk, st.engine, []⟩
   | .payload items =>
-    if env.plan .backupRead then ⟨statusOf req 500, .backup, st.disk, st.engine, []⟩
+    if env.plan .backupRead then ⟨500, .backup, st.disk, st.engine, []⟩
     else
-      let backup := snapshot st.disk
       match parse items with
-      | none => ⟨statusOf req 400, .parse, st.disk, st.engine, []⟩
-      | some parsed =>
-        let s := saveAll env st.disk parsed
-        if !s.2 then
-          ⟨statusOf req 500, .save, (restore env backup s.1).1, st.engine, []⟩
-        else
-          let r1 := reload env 1 req.gate s.1 st.engine []
-          if r1.ok then ⟨statusOf req 200, .ok, s.1, r1.engine, r1.mid⟩
-          else
-            let d2 := (restore env backup s.1).1
-            let r2 := reload env 2 req.gate d2 r1.engine r1.mid
-            ⟨statusOf req 422, .reload, d2, r2.engine, r2.mid⟩
+      | none => ⟨400, .parse, st.disk, st.engine, []⟩
+      | some parsed => saveAndReload env st req (snapshot st.disk) st.disk parsed
 
 /-- `CleanAll`, second half: `cleanUpFile` over `fs.files`. -/
 def cleanFiles (env : Env) : Disk → List Path → Disk × Bool
@@ -228,22 +240,20 @@ def cleanAll (env : Env) (d : Disk) : Disk × Bool :=
   cleanFiles env (d.filter (fun e => !e.1.inDirs)) env.cleanOrder
 
 def handleApplyFlows (env : Env) (st : State) (req : Req) : Result :=
+  if !req.methodPut then ⟨405, .method, st.disk, st.engine, []⟩
+  else
   match req.body with
-  | .badJson => ⟨statusOf req 400, .decode, st.disk, st.engine, []⟩
-  | .null => ⟨statusOf req 400, .nodata, st.disk, st.engine, []⟩
+  | .badJson => ⟨400, .decode, st.disk, st.engine, []⟩
+  | .null => ⟨400, .nodata, st.disk, st.engine, []⟩
   | .payload items =>
-    match parse items with
-    | none => ⟨statusOf req 400, .parse, st.disk, st.engine, []⟩
-    | some parsed =>
-      let c := cleanAll env st.disk
-      if !c.2 then ⟨statusOf req 500, .cleanup, c.1, st.engine, []⟩
-      else
-        let s := saveAll env c.1 parsed
-        if !s.2 then ⟨statusOf req 500, .save, s.1, st.engine, []⟩
-        else
-          let r1 := reload env 1 req.gate s.1 st.engine []
-          if r1.ok then ⟨statusOf req 200, .ok, s.1, r1.engine, r1.mid⟩
-          else ⟨statusOf req 422, .reload, s.1, r1.engine, r1.mid⟩
+    if env.plan .backupRead then ⟨500, .backup, st.disk, st.engine, []⟩
+    else
+      match parse items with
+      | none => ⟨400, .parse, st.disk, st.engine, []⟩
+      | some parsed =>
+        let c := cleanAll env st.disk
+        if !c.2 then ⟨500, .cleanup, (restore env (snapshot st.disk) c.1).1, st.engine, []⟩
+        else saveAndReload env st req (snapshot st.disk) c.1 parsed
 
 def handle (env : Env) (st : State) (req : Req) : Result :=
   match req.ep with
@@ -251,79 +261,5 @@ def handle (env : Env) (st : State) (req : Req) : Result :=
   | .applyFlows => handleApplyFlows env st req
 
 def Result.state (r : Result) : State := ⟨r.disk, r.engine⟩
-
-/-! ### The proposed fix (NOT the current code): `Restore` iterates the BACKUP, writes the backed-up
-    contents and removes the covered paths that are absent from the backup; `SaveMetricsConfig`
-    writes the user metrics path (the one the backup covers). -/
-
-/-- Corrected loop: for every backed-up path whose current content differs, store the backed-up content. -/
-def storeBackAll (env : Env) (backup : Disk) : Disk → List Path → Disk × Bool
-  | d, [] => (d, true)
-  | d, p :: rest =>
-    match backup.get p with
-    | none => storeBackAll env backup d rest
-    | some c =>
-      if d.get p = some c then storeBackAll env backup d rest
-      else
-        let r := store (env.plan (.restoreStore p)) d p c
-        if r.2 then storeBackAll env backup r.1 rest else (r.1, false)
-
-/-- Corrected `Restore()`. -/
-def restoreFixed (env : Env) (backup d : Disk) : Disk × Bool :=
-  if env.plan .restoreRead then (d, false)
-  else
-    let r := storeBackAll env backup d backup.keys
-    if r.2 then
-      (r.1.filter (fun e => !e.1.covered || (backup.get e.1).isSome), true)
-    else r
-
-/-- `SavePayloadContentToDisk` with `SaveMetricsConfig` writing `fs.files[metricsConfigFileKey]`. -/
-def saveAllFixed (env : Env) : Disk → List (Path × Bytes) → Disk × Bool
-  | d, [] => (d, true)
-  | d, (p, c) :: rest =>
-    let r := store (env.plan (.save p)) d p c
-    if r.2 then saveAllFixed env r.1 rest else (r.1, false)
-
-def handleConfigurationFixed (env : Env) (st : State) (req : Req) : Result :=
-  match req.body with
-  | .badJson => ⟨statusOf req 400, .decode, st.disk, st.engine, []⟩
-  | .null => ⟨statusOf req 400, .nodata, st.disk, st.engine, []⟩
-  | .payload items =>
-    if env.plan .backupRead then ⟨statusOf req 500, .backup, st.disk, st.engine, []⟩
-    else
-      let backup := snapshot st.disk
-      match parse items with
-      | none => ⟨statusOf req 400, .parse, st.disk, st.engine, []⟩
-      | some parsed =>
-        let s := saveAllFixed env st.disk parsed
-        if !s.2 then
-          ⟨statusOf req 500, .save, (restoreFixed env backup s.1).1, st.engine, []⟩
-        else
-          let r1 := reload env 1 req.gate s.1 st.engine []
-          if r1.ok then ⟨statusOf req 200, .ok, s.1, r1.engine, r1.mid⟩
-          else
-            let d2 := (restoreFixed env backup s.1).1
-            let r2 := reload env 2 req.gate d2 r1.engine r1.mid
-            ⟨statusOf req 422, .reload, d2, r2.engine, r2.mid⟩
-
-/-- `/apply_flows` on a tree carrying the proposed `SaveMetricsConfig` change only (still no backup:
-    F08b is not addressed by the proposed diff). Used by `lvdriver_c08 run-fixed`. -/
-def handleApplyFlowsFixed (env : Env) (st : State) (req : Req) : Result :=
-  match req.body with
-  | .badJson => ⟨statusOf req 400, .decode, st.disk, st.engine, []⟩
-  | .null => ⟨statusOf req 400, .nodata, st.disk, st.engine, []⟩
-  | .payload items =>
-    match parse items with
-    | none => ⟨statusOf req 400, .parse, st.disk, st.engine, []⟩
-    | some parsed =>
-      let c := cleanAll env st.disk
-      if !c.2 then ⟨statusOf req 500, .cleanup, c.1, st.engine, []⟩
-      else
-        let s := saveAllFixed env c.1 parsed
-        if !s.2 then ⟨statusOf req 500, .save, s.1, st.engine, []⟩
-        else
-          let r1 := reload env 1 req.gate s.1 st.engine []
-          if r1.ok then ⟨statusOf req 200, .ok, s.1, r1.engine, r1.mid⟩
-          else ⟨statusOf req 422, .reload, s.1, r1.engine, r1.mid⟩
 
 end LunarVerif.C08
